@@ -3,6 +3,7 @@
 from __future__ import annotations
 
 import copy
+import operator
 from collections.abc import Collection, Iterable, Iterator
 from enum import Enum
 from typing import TYPE_CHECKING, Any
@@ -695,7 +696,11 @@ def _validate_max_concurrency(max_concurrency: int | None) -> None:
     """
     if max_concurrency is None:
         return
-    if isinstance(max_concurrency, bool) or not isinstance(max_concurrency, int) or max_concurrency < 1:
+    try:
+        value = operator.index(max_concurrency)
+    except TypeError:
+        value = 0
+    if value < 1:
         raise ValueError(f"Invalid max_concurrency={max_concurrency!r}. Expected None (no limit) or an integer >= 1")
 
 
